@@ -33,12 +33,6 @@ namespace Json
 
 /-! ### key order -/
 
-def strLt : Str → Str → Bool
-  | [], [] => false
-  | [], _ :: _ => true
-  | _ :: _, [] => false
-  | a :: as, b :: bs => if a.toNat < b.toNat then true else if b.toNat < a.toNat then false else strLt as bs
-
 /-- `BTreeMap::insert` on a sorted association list. -/
 def insertKV (k : Str) (v : JV) : List (Str × JV) → List (Str × JV)
   | [] => [(k, v)]
